@@ -313,6 +313,18 @@ func goCertAndCSR(t *rapid.T) (certDER, csrDER []byte) {
 	return
 }
 
+// guard turns a panic inside gopki into a violation instead of killing the shard.
+func guard[C any](check func(C) *core.Failure) func(C) *core.Failure {
+	return func(c C) (f *core.Failure) {
+		defer func() {
+			if p := recover(); p != nil {
+				f = core.Failf("C17/panic", "gopki panicked: %v", p)
+			}
+		}()
+		return check(c)
+	}
+}
+
 func TestC17(t *testing.T) {
 	r := core.Start(t, "C17")
 	defer r.Finish()
@@ -365,12 +377,12 @@ func TestC17(t *testing.T) {
 			r.Case(key, cls, "curve:"+c.Curve)
 		}
 		r.Sample(cls, c)
-		return checkC17EC(c)
+		return guard(checkC17EC)(c)
 	}
 	wrapRSA := func(c c17RSA) *core.Failure {
 		r.Case(fmt.Sprintf("rsa/%d/%d", c.Bits, c.Index), "rsa")
 		r.Sample("rsa", c)
-		return checkC17RSA(c)
+		return guard(checkC17RSA)(c)
 	}
 	wrapFile := func(c c17File) *core.Failure {
 		key := ""
@@ -381,12 +393,12 @@ func TestC17(t *testing.T) {
 		if len(c.Order) >= 2 {
 			r.Sample("file", map[string]any{"HashLine": c.HashLine, "Order": c.Order})
 		}
-		return checkC17File(c)
+		return guard(checkC17File)(c)
 	}
 	wrapInvalid := func(c c17Invalid) *core.Failure {
 		r.Case("inv/"+c.Kind+"/"+fmt.Sprintf("%x", c.DER), "invalid:"+c.Kind)
 		r.Sample("invalid:"+c.Kind, map[string]any{"Kind": c.Kind, "DER": hexs(c.DER)})
-		return checkC17Invalid(c)
+		return guard(checkC17Invalid)(c)
 	}
 	core.Register(r, "ec", wrapEC)
 	core.Register(r, "rsa", wrapRSA)
